@@ -309,7 +309,8 @@ def part_pairs(p, prelude):
                 continue
             st.state(('pair', c1, c2), nontrivial=True)
             for opname in MIXOPS:
-                for a1, a2 in (('D:12.5', 'i:4'), ('i:0', 'D:-7.13')):
+                for a1, a2 in (('D:12.5', 'i:4'), ('i:0', 'D:-7.13'),
+                               ('D:12.5', 'i:0'), ('i:0', 'D:0.0004')):
                     st.paths += 1
                     st.transitions += 1
                     st.evaluations += 1
